@@ -105,6 +105,10 @@ pub struct World {
     /// Some(property) while the file is exactly as vacuum / doctor left it
     pub verify_expect: Option<&'static str>,
     pub verify_expect_next: Option<&'static str>,
+    /// Some("C42") from a successful vacuum (directly or through doctor) until the next mutation:
+    /// a disagreement with the reference model seen in that window is also a disagreement with
+    /// "vacuum keeps ids, metadata, content and answers"
+    pub attrib: Option<&'static str>,
     /// log index at which the current handle was opened (C17: what has it done since?)
     pub handle_opened_at: usize,
     /// measured WAL record size minus payload size of a steering put
@@ -212,6 +216,7 @@ impl World {
             applied_puts_last_commit: 0,
             verify_expect: None,
             verify_expect_next: None,
+            attrib: None,
             handle_opened_at: 0,
             steer_overhead: None,
         };
@@ -241,7 +246,13 @@ impl World {
     }
     pub fn viol_sig(&mut self, props: &[&str], oracle: &str, sig: &str, msg: String, op: usize) {
         if self.violations.len() < 50 {
-            self.violations.push(Violation { props: props.iter().map(|s| s.to_string()).collect(), oracle: oracle.to_string(), sig: sig.to_string(), msg, op });
+            let mut props: Vec<String> = props.iter().map(|s| s.to_string()).collect();
+            if let Some(a) = self.attrib {
+                if !props.iter().any(|p| p == a) && props.iter().any(|p| matches!(p.as_str(), "C01" | "C06" | "C07" | "C08" | "C13" | "C14" | "C15" | "C27")) {
+                    props.push(a.to_string());
+                }
+            }
+            self.violations.push(Violation { props, oracle: oracle.to_string(), sig: sig.to_string(), msg, op });
         }
     }
 
@@ -753,6 +764,7 @@ impl World {
                         self.model.apply_pending();
                         self.probes.vacuum += 1;
                         self.verify_expect_next = Some("C42");
+                        self.attrib = Some("C42");
                         self.compare_full(i, "vacuum");
                         (true, false, None)
                     }
@@ -777,6 +789,9 @@ impl World {
                         self.probes.doctor += 1;
                         if !d.dry_run {
                             self.verify_expect_next = Some(if d.vacuum { "C42" } else { "C21" });
+                            if d.vacuum {
+                                self.attrib = Some("C42");
+                            }
                         }
                         (true, false, None)
                     }
@@ -1132,6 +1147,9 @@ impl World {
     fn post_op_invariants(&mut self, i: usize, op: &Op, ok: bool, err: Option<&str>, log_b: usize) {
         if self.plain {
             return;
+        }
+        if ok && (op.is_mutation() && !matches!(op, Op::Vacuum)) || matches!(op, Op::Create | Op::PutCards(_) | Op::MeshAdd { .. } | Op::BeginBatch(_) | Op::EnableLex | Op::EnableVec) {
+            self.attrib = None;
         }
         // bookkeeping: is the file still exactly as vacuum / doctor left it?
         match op {
